@@ -88,6 +88,27 @@ static int replay(const char* path, unsigned seed, const char* only) {
             VH_B; vh_s("k", "ext"); VH_C; vh_s("inst", g_inst); VH_C; vh_i("f", f); VH_C; vh_i("m", m + 1); VH_C; vh_i("tag", t + 1); VH_C; vh_i("c0", c0); VH_C; vh_i("pos", pos); VH_C; wl("ph", pv); VH_C; vh_i("off", off); VH_E;
         }
     }
+    // ---- the gate functions on a cloud key set built from the embedded key material (needs 1/8 on the W-bit grid: W >= 3) ----
+    if ((!only[0] || strstr(only, "gate")) && I.W >= 3 && !stepwise_only) {
+        TFheGateBootstrappingParameterSet* ps = new TFheGateBootstrappingParameterSet(I.T, I.BB, lp, gp);
+        TFheGateBootstrappingCloudKeySet* ck = new TFheGateBootstrappingCloudKeySet(ps, bk, bkf);
+        LweSample* in3 = new_LweSample_array(3, lp); LweSample* o = new_LweSample(lp);
+        const char* gs[11] = {"NAND", "OR", "AND", "XOR", "XNOR", "NOR", "ANDNY", "ANDYN", "ORNY", "ORYN", "MUX"};
+        long mvals[3] = {0, Q - 3, Q / 2 + 1}; long E = Q / 32 > 0 ? Q / 32 : 0;
+        for (int gi = 0; gi < 11; gi++) for (int bits = 0; bits < (gi == 10 ? 8 : 4); bits++) for (int rep = 0; rep < 5; rep++) {
+            long bit[3] = {bits & 1, (bits >> 1) & 1, (bits >> 2) & 1}, e[3], m[3][8];
+            for (int x = 0; x < 3; x++) { e[x] = rep == 0 ? 0 : ((long)rng.below(3) - 1) * E; long dot = 0;
+                for (int q = 0; q < I.NN; q++) { m[x][q] = rep == 0 ? 0 : mvals[rng.below(3)]; dot += m[x][q] * I.lkey[q]; in3[x].a[q] = (Torus32)((uint32_t)m[x][q] << I.sh); }
+                long enc = bit[x] ? Q / 8 : Q - Q / 8; in3[x].b = (Torus32)((uint32_t)(((enc + e[x] + dot) % Q + Q) % Q) << I.sh); in3[x].current_variance = 0; }
+            switch (gi) { case 0: bootsNAND(o, in3, in3 + 1, ck); break; case 1: bootsOR(o, in3, in3 + 1, ck); break; case 2: bootsAND(o, in3, in3 + 1, ck); break; case 3: bootsXOR(o, in3, in3 + 1, ck); break;
+                case 4: bootsXNOR(o, in3, in3 + 1, ck); break; case 5: bootsNOR(o, in3, in3 + 1, ck); break; case 6: bootsANDNY(o, in3, in3 + 1, ck); break; case 7: bootsANDYN(o, in3, in3 + 1, ck); break;
+                case 8: bootsORNY(o, in3, in3 + 1, ck); break; case 9: bootsORYN(o, in3, in3 + 1, ck); break; default: bootsMUX(o, in3, in3 + 1, in3 + 2, ck); }
+            VH_B; vh_s("k", "gate"); VH_C; vh_s("inst", g_inst); VH_C; vh_s("g", gs[gi]); VH_C;
+            for (int x = 0; x < 3; x++) { fprintf(vh_out, "\"x%c\":{\"bit\":%ld,\"e\":%ld,\"m\":[", "abc"[x], bit[x], e[x]); for (int q = 0; q < I.NN; q++) fprintf(vh_out, "%s%ld", q ? "," : "", m[x][q]); fputs("]},", vh_out); }
+            vh_w("ph", (uint32_t)lwePhase(o, lk)); VH_C; std::vector<uint32_t> oa(I.NN); for (int q = 0; q < I.NN; q++) oa[q] = (uint32_t)o->a[q]; wl("oa", oa); VH_E;
+        }
+        delete_LweSample(o); delete_LweSample_array(3, in3);
+    }
     // ---- blind rotation by chosen exponent vectors (multiples of the stride), whole and element by element ----
     TLweSample* acc = new_TLweSample(tp); TLweSample* acc2 = new_TLweSample(tp); TorusPolynomial* tv = new_TorusPolynomial(1024);
     long ev[7] = {0, 1, I.NP - 1, I.NP, I.NP + 1, 2 * I.NP - 1, 5};
